@@ -178,7 +178,12 @@ func runCase(k *mon.Case) {
 	if r.Chance(1, 4) {
 		fam = node.FamVarWork
 	}
-	g := chaingen.New(node.NewParams(fam), fam, r)
+	params := node.NewParams(fam)
+	if r.Chance(1, 3) {
+		// a subsidy halving inside the part of the chain that is built from templates
+		params.SubsidyReductionInterval = int32(20 + r.Intn(12))
+	}
+	g := chaingen.New(params, fam, r)
 	g.MaxTx = 4
 	mp := node.DefaultMemPolicy()
 	mp.MinRelayTxFee = 0 // let zero-fee transactions into the pool: the priority area is part of the quantifier
@@ -277,6 +282,8 @@ func main() {
 		c.Family("sigoplimit", c.N(28, 1500), runSigopLimit)
 		c.Require("sigoplimit.pools", 20)
 		c.Require("template.pay_address", 100)
+		c.Require("template.regenerated_after_fee_bump", 20)
+		c.Require("template.first_block_of_halving_epoch", 5)
 		c.Require("template.update_time_across_min_difficulty_boundary", 5)
 		c.Require("template.sigops_at_limit", 3)
 		c.Require("template.mined", 1000)
